@@ -22,6 +22,7 @@ import (
 	"io"
 	"net/http"
 	"reflect"
+	"strconv"
 	"strings"
 	"time"
 
@@ -205,6 +206,63 @@ type PayloadOpts struct {
 	Escape     bool   // first character of sub / nonce written as a \\uXXXX escape
 	ExtraKey   string // JSON member that carries Claims.Extra ("ext" for tokens, "state" for request objects)
 	Scope      string // request objects: scope member
+	// NumForm is the JSON spelling of the time claims (all of them, or only the
+	// one named by NumWhich): "" integer, "dot0" N.0, "frac" N.5 / N.25 / N.999,
+	// "exp" d.ddde+09, "Exp" d.dddE9, "e0" Ne0, "long" N.000000000000000000001 -
+	// all legal JSON numbers whose value truncates to N; "plus" +N and "leadzero"
+	// 0N are not JSON at all.
+	NumForm  string
+	NumWhich string // "" = every time claim; "exp" | "iat" | "auth_time" | "nbf"
+	Nbf      int64  // when non-zero an nbf member is written (not part of the model's claims)
+}
+
+// InvalidNumForm: the spelling makes the payload invalid JSON.
+func (o PayloadOpts) InvalidNumForm() bool { return o.NumForm == "plus" || o.NumForm == "leadzero" }
+
+// NumForms lists the legal non-integer spellings.
+var NumForms = []string{"dot0", "frac", "exp", "Exp", "e0", "long"}
+
+// SpellNumber writes v in the given form; forms that would not denote a number
+// truncating to exactly v (float64 precision) fall back to the integer literal.
+func SpellNumber(v int64, form string) string {
+	plain := strconv.FormatInt(v, 10)
+	neg, digits := v < 0, strings.TrimPrefix(plain, "-")
+	sign := ""
+	if neg {
+		sign = "-"
+	}
+	out := plain
+	switch form {
+	case "dot0":
+		out = plain + ".0"
+	case "frac":
+		if v > -(1<<40) && v < 1<<40 {
+			out = plain + []string{".5", ".25", ".999", ".000001"}[int(uint64(v)%4)]
+		}
+	case "exp", "Exp":
+		m := digits[:1]
+		if len(digits) > 1 {
+			m += "." + digits[1:]
+		}
+		if form == "exp" {
+			out = fmt.Sprintf("%s%se+%02d", sign, m, len(digits)-1)
+		} else {
+			out = fmt.Sprintf("%s%sE%d", sign, m, len(digits)-1)
+		}
+	case "e0":
+		out = plain + "e0"
+	case "long":
+		out = plain + ".000000000000000000001"
+	case "plus":
+		return "+" + plain
+	case "leadzero":
+		return sign + "0" + digits
+	}
+	f, err := strconv.ParseFloat(out, 64)
+	if err != nil || int64(f) != v {
+		return plain
+	}
+	return out
 }
 
 func js(v any) string { b, _ := json.Marshal(v); return string(b) }
@@ -222,9 +280,12 @@ func (c Claims) Payload(o PayloadOpts) []byte {
 		if v == 0 {
 			return
 		}
-		if o.TimeString {
+		switch {
+		case o.TimeString:
 			add(k, js(time.Unix(v, 0).UTC().Format(time.RFC3339)))
-		} else {
+		case o.NumForm != "" && (o.NumWhich == "" || o.NumWhich == k):
+			add(k, SpellNumber(v, o.NumForm))
+		default:
 			add(k, fmt.Sprint(v))
 		}
 	}
@@ -254,6 +315,7 @@ func (c Claims) Payload(o PayloadOpts) []byte {
 	tm("exp", c.Exp)
 	tm("iat", c.Iat)
 	tm("auth_time", c.AuthT)
+	tm("nbf", o.Nbf)
 	esc("nonce", c.Nonce)
 	str("acr", c.Acr)
 	str("at_hash", c.AtHash)
@@ -414,6 +476,9 @@ type BuildSpec struct {
 	EvilClaims  Claims
 	EvilPayload []byte
 	AltPayload  []byte // re-encoding of Claims (same decoding, other bytes)
+	// PayloadInvalid: Payload (and its variants) is not valid JSON (number spelling):
+	// wherever the middle segment would decode, json.Unmarshal fails instead
+	PayloadInvalid bool
 }
 
 // Mutations lists the catalogue (DESIGN 5 C02).
@@ -422,6 +487,10 @@ var Mutations = []string{
 	"mid_bad_b64", "two_parts", "four_parts", "reencode", "payload_swap", "alg_swap", "kid_swap",
 	"jwk_embed", "flat_same", "flat_evil", "flat_nodots", "general_one", "two_sigs_same", "two_sigs_evil",
 	"two_sigs_nodots", "payload_null", "payload_notjson", "payload_typeerr",
+	// JSON serialisation, WHERE kid / alg live: kid only in the unprotected header
+	// (the scenario's kid / a foreign kid), in both with conflicting values
+	// (protected wins), alg repeated in the unprotected header with another value
+	"flat_kid_unprot", "flat_kid_unprot_other", "flat_kid_conflict", "flat_alg_conflict", "general_kid_unprot_other",
 }
 
 func reheader(prot string, set map[string]string) string {
@@ -556,6 +625,37 @@ func Build(r drv.Rand, s BuildSpec) (Token, Middle) {
 			raw = `{"payload":"` + sg.p + `","signatures":[{"protected":"` + sg.h + `"` + hdr + `,"signature":"` + sg.s + `"}]}`
 		}
 		tok = Token{Kind: "json", Entries: []SigEntry{e}, Payload: string(payload), Raw: raw}
+	case "flat_kid_unprot", "flat_kid_unprot_other", "flat_kid_conflict", "flat_alg_conflict", "general_kid_unprot_other":
+		g := sg // the signed token whose protected header is used
+		un := ""
+		mergedKid := e.Kid
+		switch s.Mut {
+		case "flat_kid_unprot", "flat_kid_unprot_other", "general_kid_unprot_other":
+			g = sign(s.Signer, s.Alg, "", typ, false, payload) // no kid under the signature
+			k := s.Kid
+			if k == "" || s.Mut != "flat_kid_unprot" {
+				k = s.OtherKid
+			}
+			if s.Mut == "general_kid_unprot_other" {
+				k = "kid-unprotected" // a kid no key of any scenario carries
+			}
+			un = `"kid":` + js(k) + `,`
+			mergedKid = k
+		case "flat_kid_conflict":
+			un = `"kid":` + js(s.OtherKid) + `,`
+			if e.Kid == "" {
+				mergedKid = s.OtherKid
+			}
+		default:
+			un = `"alg":` + js(swapAlg(s.Alg)) + `,`
+		}
+		hdr := `,"header":{` + un + `"x":"a.` + g.p + `.b"}`
+		raw := `{"payload":"` + g.p + `","protected":"` + g.h + `"` + hdr + `,"signature":"` + g.s + `"}`
+		if s.Mut == "general_kid_unprot_other" {
+			raw = `{"payload":"` + g.p + `","signatures":[{"protected":"` + g.h + `"` + hdr + `,"signature":"` + g.s + `"}]}`
+		}
+		e2 := SigEntry{Alg: g.entry.Alg, Kid: mergedKid, Prot: g.entry.Prot, Sig: g.entry.Sig}
+		tok = Token{Kind: "json", Entries: []SigEntry{e2}, Payload: string(payload), Raw: raw}
 	case "two_sigs_same", "two_sigs_evil", "two_sigs_nodots":
 		o := s.Other
 		oalg := o.Algs[0]
@@ -580,6 +680,9 @@ func Build(r drv.Rand, s BuildSpec) (Token, Middle) {
 		tok = Token{Kind: "json", Entries: []SigEntry{e, sg2.entry}, Payload: string(payload), Raw: raw}
 	default:
 		panic("unknown mutation " + s.Mut)
+	}
+	if s.PayloadInvalid && mid.Kind == "ok" {
+		mid = Middle{Kind: "json"}
 	}
 	return tok, mid
 }
